@@ -5,6 +5,7 @@
 mod proto;
 mod props;
 mod rng;
+mod engine_common;
 
 use props::{Prop, Stats, Tier};
 use std::io::{BufRead, Write};
